@@ -104,7 +104,7 @@ Proof. vm_compute. reflexivity. Qed.
    lock table and queue untouched, nothing on disk besides the funding *)
 Definition e4_spend_kr : request :=
   {| rq_kind := KCreate; rq_ik := 7%N; rq_ref := 9%N; rq_dry := false; rq_postings := [(e4_alice, e4_bob, 100)];
-     rq_unb := false; rq_revert := O; rq_target_tx := None |}.
+     rq_unb := false; rq_revert := O; rq_target_tx := None; rq_meta := 0%N |}.
 
 Lemma e4_readfail_prelock_check :
   match run init (e4_fund ++ [AStart 2%nat e4_spend_kr; AResumeReadFail 2%nat]),
